@@ -80,7 +80,11 @@ OverLight(X, L) ==
 D2(mode) == Over(S1(mode, Small(mode)), Small(mode))
 D3(mode) == OverLight(Over(S1(mode, Tiny(mode)), Tiny(mode)), Tiny(mode))
 
-Trees(mode) == Atoms(mode) \cup D1(mode) \cup (IF Depth >= 2 THEN D2(mode) ELSE {}) \cup (IF Depth >= 3 THEN D3(mode) ELSE {})
+\* double negation in every form over the depth-1 trees (whose results and defaults differ from
+\* the target): Not yields the target, so ~~x passes exactly when x does and yields the target
+DoubleNot(mode) == UNION {NotForms(y) : y \in UNION {NotForms(x) : x \in S1(mode, Small(mode)) \cup Atoms(mode)}}
+
+Trees(mode) == Atoms(mode) \cup D1(mode) \cup DoubleNot(mode) \cup (IF Depth >= 2 THEN D2(mode) ELSE {}) \cup (IF Depth >= 3 THEN D3(mode) ELSE {})
 
 \* Check over all keyword subsets (equal_to and one_of exclude each other)
 Checks ==
